@@ -4,7 +4,7 @@
 From Coq Require Import List NArith Bool Lia String.
 From Breadlog Require Import Model.Peg Model.Text Model.Regex Model.Glue Model.Tables Model.Utf8 Model.Driver.
 From Breadlog Require Import Gen.Grammar Gen.Consts.
-From Breadlog Require Import Proofs.PegFacts Proofs.TokenFacts Proofs.GlueFacts Proofs.NoPanic.
+From Breadlog Require Import Proofs.PegFacts Proofs.TokenFacts Proofs.GlueFacts Proofs.NoPanic Proofs.ValidUtf8.
 From Breadlog Require Import Properties.Common.
 Import ListNotations.
 Open Scope N_scope.
@@ -78,9 +78,24 @@ Example C17_nonvacuous :
   find (mkConfig true []) [] = Done [].
 Proof. vm_compute. split; [reflexivity|]. split; [eexists; reflexivity|reflexivity]. Qed.
 
+(* ... and an edit run never turns a readable file into an unreadable one: whatever the tree, configuration, lock
+   state, fault oracle and stop point, a file that decoded as UTF-8 before the run decodes after it (it is
+   unchanged, or it is the encoding of the old text with ASCII references inserted at character positions:
+   C03_every_file_text) -- so the next run does not skip it *)
+Theorem C17_readable_stays_readable : forall rc files lk o j b t,
+  files <> [] -> nth_error files j = Some b -> utf8_decode b = Some t -> o_rfail2 o j = false ->
+  exists b' t', nth_error (w_src (after rc files lk o)) j = Some b' /\ utf8_decode b' = Some t'.
+Proof.
+  intros rc files lk o j b t Hne Hj Hd Hrf.
+  destruct (file_after_edit_text rc files lk o j b t Hne Hj Hd Hrf) as [H|(es & c0 & t' & _ & _ & H & Hd')].
+  - exists b, t. split; assumption.
+  - exists (utf8_encode t'), t'. split; assumption.
+Qed.
+
 Print Assumptions C17_grammar_wf.
 Print Assumptions C17_parse_terminates.
 Print Assumptions C17_finder_total.
+Print Assumptions C17_readable_stays_readable.
 Print Assumptions C17_edit_never_panics.
 Print Assumptions C17_check_never_panics.
 Print Assumptions C17_invalid_utf8_skipped.
